@@ -58,7 +58,7 @@ func init() {
 			return ex.sprintf(a[0], a[1].(Slice))
 		},
 		"fmt.Sprint": func(ex *Exec, c *frame, fn *ssa.Function, a []Value) Value {
-			return &SymStr{Opaque: true, Note: "fmt.Sprint"}
+			return &SymStr{Opaque: true, Note: "fmt.Sprint", Segs: []Value{nil}}
 		},
 		"fmt.Println": func(ex *Exec, c *frame, fn *ssa.Function, a []Value) Value {
 			return Tuple{smt.BVC(64, 0), Iface{}}
@@ -68,6 +68,29 @@ func init() {
 		},
 
 		// strings: byte-vector intrinsics (their Go bodies end in assembly)
+		"internal/bytealg.IndexByteString": func(ex *Exec, c *frame, fn *ssa.Function, a []Value) Value {
+			return smt.BVC(64, uint64(int64(ex.indexByte(strBytes(ex.clear(a[0])), a[1].(*smt.Term)))))
+		},
+		"internal/bytealg.IndexByte": func(ex *Exec, c *frame, fn *ssa.Function, a []Value) Value {
+			sl := a[0].(Slice)
+			bs := make([]*smt.Term, len(sl))
+			for i, v := range sl {
+				bs[i] = v.(*smt.Term)
+			}
+			return smt.BVC(64, uint64(int64(ex.indexByte(bs, a[1].(*smt.Term)))))
+		},
+		"strings.IndexByte": func(ex *Exec, c *frame, fn *ssa.Function, a []Value) Value {
+			return smt.BVC(64, uint64(int64(ex.indexByte(strBytes(ex.clear(a[0])), a[1].(*smt.Term)))))
+		},
+		"internal/bytealg.CountString": func(ex *Exec, c *frame, fn *ssa.Function, a []Value) Value {
+			n := 0
+			for _, b := range strBytes(ex.clear(a[0])) {
+				if ex.P.branch(smt.Eq(b, a[1].(*smt.Term))) {
+					n++
+				}
+			}
+			return smt.BVC(64, uint64(n))
+		},
 		"strings.HasPrefix": func(ex *Exec, c *frame, fn *ssa.Function, a []Value) Value {
 			return ex.strHasPrefix(a[0], a[1])
 		},
@@ -174,6 +197,16 @@ func init() {
 	registerRegexp()
 }
 
+// indexByte forks over the first position holding byte c.
+func (ex *Exec) indexByte(bs []*smt.Term, c *smt.Term) int {
+	for i, b := range bs {
+		if ex.P.branch(smt.Eq(b, c)) {
+			return i
+		}
+	}
+	return -1
+}
+
 func (ex *Exec) clear(v Value) Value {
 	if s, ok := v.(*SymStr); ok {
 		ex.needClear(s)
@@ -191,6 +224,20 @@ func (ex *Exec) builder(p *Value) *[]*smt.Term {
 }
 
 func (ex *Exec) strHasPrefix(s, p Value) *smt.Term {
+	if isOpaque(s) && !isOpaque(p) {
+		// decide on the known leading segments when they cover the prefix
+		var lead []*smt.Term
+		for _, seg := range segsOf(s) {
+			if seg == nil {
+				break
+			}
+			lead = append(lead, strBytes(seg)...)
+		}
+		if len(lead) >= strLen(p) {
+			return ex.strEq(mkStr(lead[:strLen(p)]), p)
+		}
+		ex.abort("HasPrefix on a string whose beginning is unknown: %s", s.(*SymStr).Note)
+	}
 	sb, pb := strBytes(ex.clear(s)), strBytes(ex.clear(p))
 	if len(pb) > len(sb) {
 		return smt.False
@@ -407,13 +454,21 @@ func (ex *Exec) tryNative(fn *ssa.Function, args []Value) (Value, bool) {
 func (ex *Exec) sprintf(format Value, args Slice) Value {
 	f, ok := format.(string)
 	if !ok {
-		return &SymStr{Opaque: true, Note: "symbolic format"}
+		return &SymStr{Opaque: true, Note: "symbolic format", Segs: []Value{nil}}
 	}
-	var out strings.Builder
+	var segs []Value
+	var lit strings.Builder
+	flush := func() {
+		if lit.Len() > 0 {
+			segs = append(segs, lit.String())
+			lit.Reset()
+		}
+	}
+	unknown := false
 	ai := 0
 	for i := 0; i < len(f); i++ {
 		if f[i] != '%' {
-			out.WriteByte(f[i])
+			lit.WriteByte(f[i])
 			continue
 		}
 		j := i + 1
@@ -421,37 +476,58 @@ func (ex *Exec) sprintf(format Value, args Slice) Value {
 			j++
 		}
 		if j >= len(f) {
-			out.WriteString(f[i:])
+			lit.WriteString(f[i:])
 			break
 		}
 		verb := f[j]
 		spec := f[i : j+1]
 		i = j
 		if verb == '%' {
-			out.WriteByte('%')
+			lit.WriteByte('%')
 			continue
 		}
 		if ai >= len(args) {
-			out.WriteString("%!" + string(verb) + "(MISSING)")
+			lit.WriteString("%!" + string(verb) + "(MISSING)")
 			continue
 		}
 		arg := args[ai].(Iface)
 		ai++
 		if verb == 'T' {
 			if arg.T == nil {
-				out.WriteString("<nil>")
+				lit.WriteString("<nil>")
 			} else {
-				out.WriteString(ex.typeString(arg.T))
+				lit.WriteString(ex.typeString(arg.T))
 			}
 			continue
 		}
-		nv, ok := toNative(arg)
-		if !ok {
-			return &SymStr{Opaque: true, Note: "Sprintf(" + f + ")"}
+		if nv, ok := toNative(arg); ok {
+			lit.WriteString(fmt.Sprintf(spec, nv))
+			continue
 		}
-		out.WriteString(fmt.Sprintf(spec, nv))
+		// symbolic argument
+		if (verb == 's' || verb == 'v') && len(spec) == 2 {
+			if sv, ok := arg.V.(*SymStr); ok && arg.T != nil && types.Identical(arg.T.Underlying(), types.Typ[types.String]) {
+				flush()
+				segs = append(segs, segsOf(sv)...)
+				if sv.Opaque {
+					unknown = true
+				}
+				continue
+			}
+		}
+		flush()
+		segs = append(segs, nil)
+		unknown = true
 	}
-	return out.String()
+	flush()
+	if !unknown {
+		var out Value = ""
+		for _, sg := range segs {
+			out = ex.strConcat(out, sg)
+		}
+		return out
+	}
+	return &SymStr{Opaque: true, Note: "Sprintf(" + f + ")", Segs: segs}
 }
 
 // toNative converts a concrete, simple engine value into a Go value for fmt.
